@@ -1,6 +1,7 @@
 package main
 
 import (
+	"time"
 	"context"
 	"encoding/json"
 	"fmt"
@@ -35,7 +36,7 @@ func runC03(tier, replay string) {
 	r.SetRule("for every mutating operation of a generated history: (a) requests the model predicts to fail semantically are executed and the strict API snapshot (all buckets/versions/content/tags/metadata/uploads/parts/listings incl. version ids and Last-Modified) must be identical before and after; (b) fault enumeration: the operation is re-executed with an injected error at injection opportunity k = 1,2,3,... (every part-store call before/after delegating, every SQL statement, every error-capable transaction hook point made on behalf of that operation, counted in order of occurrence) until k exceeds the number of opportunities, each failing run followed by the same strict snapshot comparison. distinct = distinct (op kind x fault site x stack) triples that produced a failing return")
 	r.Assume("SQL faults are injected at statement level (ExecContext/QueryContext) through a wrapping database/sql driver; COMMIT failure is simulated by the tx.commit.before-db hook; faults are errors returned to pithos, not torn writes (crashes are C10)")
 	ctx0 := context.Background()
-	stacks := []string{"fs", "sql"}
+	stacks := []string{"fs", "sql", "ec21"}
 	nh, steps := 5, 24
 	if r.Thorough() {
 		stacks = []string{"fs", "sql", "tink>fs", "outbox>fs", "ec21", "named"}
@@ -65,6 +66,9 @@ func runC03(tier, replay string) {
 		for hi := 0; hi < nh; hi++ {
 			if only >= 0 && hi != only {
 				continue
+			}
+			if r.Quick() && stack == "ec21" && hi >= 2 && only < 0 {
+				break // quick tier: two histories on the erasure-coded stack
 			}
 			se, err := openStack(r.SubDir(fmt.Sprintf("c03-%s-%d", strings.NewReplacer(">", "_").Replace(stack), hi)), stack, true)
 			if err != nil {
@@ -152,7 +156,22 @@ func runFaultHistoryWith(ctx0 context.Context, r *vkit.Run, se *stackEnv, stack 
 		for k := 1; ; k++ {
 			pl := &plan{target: k}
 			ctx := planCtx(ctx0, pl)
-			res := vmodel.Exec(ctx, se.s, op)
+			var res *vmodel.Result
+			resCh := make(chan *vmodel.Result, 1)
+			go func() { resCh <- vmodel.Exec(ctx, se.s, op) }()
+			select {
+			case res = <-resCh:
+			case <-time.After(90 * time.Second):
+				// generous wall-clock watchdog: an operation that does not return at all after an
+				// injected error (it still holds the write transaction) is reported with the site
+				pl.mu.Lock()
+				site := pl.hitSite
+				pl.mu.Unlock()
+				r.Violation(fmt.Sprintf("operation-hangs-after-fault:%s:%s", op.Kind, site), fmt.Sprintf("%s did not return within 90 s after an error was injected at %s (opportunity %d)", op, site, k),
+					c03Witness{Stack: stack, History: hi, Step: step, Op: op.String(), Site: site, K: k, Sites: pl.sites, Tail: tail()})
+				// the stuck call still holds the write transaction: nothing more can be run in this process
+				r.Finish()
+			}
 			verifhook.Clear()
 			if pl.hitSite == "" {
 				// k exceeded the number of opportunities: this was the normal run
